@@ -73,3 +73,26 @@ def energy_span(G):
         i_hi = k if G[k] == hi else i_hi
         i_lo = k if G[k] == lo else i_lo
     return (hi - lo) + ((G[n - 1] - G[0]) if i_hi < i_lo else 0)
+
+
+def from_string_stoich(cls, text, species):
+    r = cls.from_string(text, species)
+    return (list(r.reactants_stoich), list(r.products_stoich))
+
+
+def balance_outcome(reactants, products):
+    """reactants / products: [(name, composition, coefficient)].  The species are NASA polynomials built by the real
+    constructor (so what the constructor does to the composition counts); returns 'balanced' or 'refused'."""
+    import pmutt.empirical.nasa as nasa
+    import pmutt.reaction as reaction
+
+    def species(name, comp):
+        return nasa.Nasa(name=name, T_low=200., T_mid=1000., T_high=3000., a_low=[1., 0., 0., 0., 0., 0., 0.],
+                         a_high=[1., 0., 0., 0., 0., 0., 0.], elements=comp, phase='S')
+    rxn = reaction.Reaction(reactants=[species(n, c) for n, c, _ in reactants], reactants_stoich=[v for _, _, v in reactants],
+                            products=[species(n, c) for n, c, _ in products], products_stoich=[v for _, _, v in products])
+    try:
+        rxn.check_element_balance()
+    except ValueError:
+        return 'refused'
+    return 'balanced'
